@@ -31,6 +31,19 @@ theorem run_erase (t : CTree) (ops : List Op) : erase (run t ops).1 = erase t :=
 theorem pickle_after_history (t : CTree) (ops : List Op) :
     ∃ t', decode (encode (run t ops).1) = some t' ∧ erase t' = erase t := pickle_after_history' t ops
 
+/-- the serialized form determines structure, identities and string: two trees with the same JSON /
+pickle have the same erasure -/
+theorem encode_inj (a b : CTree) (h : encode a = encode b) : erase a = erase b := by
+  have ha := decode_encode a
+  have hb := decode_encode b
+  rw [h, hb] at ha
+  have : clearK b = clearK a := Option.some.inj ha
+  rw [← erase_clearK a, ← erase_clearK b, this]
+
+/-- a second round trip changes nothing more -/
+theorem roundtrip_idem (t : CTree) : decode (encode (clearK t)) = some (clearK t) := by
+  rw [encode_clearK]; exact decode_encode t
+
 /-! non-vacuity -/
 def f0 : Fields := { len := none, hash := none, shash := none, isOpen := some true, kPaths := false, concreteKPaths := false }
 def exC : CTree := .node 1 "<s>" [.openLeaf 2 "<a>" { f0 with kPaths := true }, .node 3 "x" [] { f0 with isOpen := some false, len := some 1 }] f0
